@@ -90,8 +90,10 @@ func main() {
 				}
 			}
 		}()
+		rules.CheckTrustedBase(ctx)
 		r.Run(ctx)
 		if *tier == "thorough" {
+			rules.ArchReload(ctx, *repo)
 			rules.Thorough(ctx, *repo, *verif)
 		}
 	}()
